@@ -65,7 +65,8 @@ def visits : Nat → Schema → Option String → List Selection → List Visit
       match sel with
       | .field _ name args dirs _ ss =>
         let fd := parent.bind fun p => fieldOn S p name
-        let child := fd.map fun d => d.type.baseName
+        -- selections on the introspection types (`__Schema`, `__Type`, …) are outside this model: unknown parent
+        let child := fd.bind fun d => if d.type.baseName.startsWith "__" then none else some d.type.baseName
         Visit.field parent name fd args dirs (!ss.isEmpty) :: visits n S child ss
       | .inline tc dirs ss =>
         Visit.inline parent tc dirs :: visits n S (match tc with | some t => some t | none => parent) ss
